@@ -304,4 +304,30 @@ def gen_MbootConsts():
     emit("MbootConsts", "\n".join(L) + "\n", meta)
 
 
-GENERATORS = {"MbootConsts": gen_MbootConsts}
+def gen_SdpConsts():
+    """Generated/SdpConsts.lean: SDP command tags, response values, status codes, command packet format, read block size."""
+    cmdm, errm, sdpm = parse("spsdk/sdp/commands.py"), parse("spsdk/sdp/error_codes.py"), parse("spsdk/sdp/sdp.py")
+    L = ["namespace SpsdkVerif.Generated.SdpConsts", ""]
+    ct = enum_members(cmdm, "CommandTag")
+    # WRITE_REGISTER is written over several lines: `NAME = (\n 0x0202, ...)` is still a Tuple node
+    L.append(f"def commandTags : List (String × Nat) := [{', '.join(f'(\"{n}\", {v})' for n, v in ct)}]")
+    rv = enum_members(cmdm, "ResponseValue")
+    L.append(f"def responseValues : List (String × Nat) := [{', '.join(f'(\"{n}\", {v})' for n, v in rv)}]")
+    st = enum_members(errm, "StatusCode")
+    L.append(f"def statusCodes : List (String × Nat) := [{', '.join(f'(\"{n}\", {v})' for n, v in st)}]")
+    fmt = class_consts(cmdm, "CmdPacket").get("FORMAT", "?")
+    r = fmt_to_lean(fmt) if isinstance(fmt, str) else None
+    L.append(f"def cmdPacketEndian : String := \"{r[0] if r else '?'}\"")
+    L.append(f"def cmdPacketWidths : List Nat := [{', '.join(map(str, r[1])) if r else ''}]  -- CmdPacket.FORMAT = {fmt!r}")
+    # `max_length = 64` in SDP._read_data
+    ml = None
+    f = _fun(_cls(sdpm, "SDP"), "_read_data")
+    for n in ast.walk(f) if f is not None else []:
+        if isinstance(n, ast.Assign) and isinstance(n.targets[0], ast.Name) and n.targets[0].id == "max_length" and isinstance(n.value, ast.Constant):
+            ml = n.value.value
+    L.append(f"def readBlock : Nat := {ml if isinstance(ml, int) else 999999}  -- max_length in SDP._read_data")
+    L += ["", "end SpsdkVerif.Generated.SdpConsts"]
+    emit("SdpConsts", "\n".join(L) + "\n", {"sources": ["spsdk/sdp/commands.py", "spsdk/sdp/error_codes.py", "spsdk/sdp/sdp.py"], "format": fmt})
+
+
+GENERATORS = {"MbootConsts": gen_MbootConsts, "SdpConsts": gen_SdpConsts}
